@@ -540,7 +540,11 @@ bool Instance::configure_tx_txin() {
                 fprintf(stderr, "witness program unexpected size: %zu (expected %zu)\n", program.size(), WITNESS_V1_TAPROOT_SIZE);
                 return false;
             }
-            // TODO: check if p2sh
+            // BIP341: a version 1 program wrapped in P2SH is not a taproot output (it stays an unknown witness program)
+            if (scriptSig.size() > 0) {
+                fprintf(stderr, "script sig declared version=1 inside P2SH: not a taproot output (BIP341); unknown witness programs are not supported\n");
+                return false;
+            }
             if (stack.size() == 0) {
                 fprintf(stderr, "error: witness program was passed an empty witness\n");
                 return false;
